@@ -189,7 +189,7 @@ def run(ctx):
                     ctx.fail(None, 'an evolution was executed twice in one run', rep)
                 if not ok and after != before:
                     ctx.fail(None, 'a failed run changed the recorded evolutions', rep)
-                if ok and not wiped:
+                if ok:
                     # a completed run leaves every label of every evolved app recorded exactly once
                     for c in sel_cfg:
                         for lab in c['sequence']:
